@@ -32,11 +32,11 @@ def first_diff(a, b):
     return "length"
 
 
-def check_doc(sh, cid, text, value, lines, cmds, origin, beyond):
+def check_doc(sh, cid, text, value, lines, cmds, origin, beyond, modes=None):
     """lines: result lines for the P commands of this doc, in the order default(NUL incl.), strict, default(len=-1)"""
     exp_default = refjson.dump(value, saturate=True)
     nulkey = refjson.has_nul_key(value)
-    modes = [("default", 0), ("strict", 1), ("default-strlen", 0)]
+    modes = modes or [("default", 0), ("strict", 1), ("default-strlen", 0)]
     for (mname, strict), ln in zip(modes, lines):
         f = ln.split(" ", 4)
         if f[0] != "=" or len(f) < 5:
@@ -77,7 +77,12 @@ def doc_cmds(text):
         u8 = False
     sf = [1, 3, 0x11, 0x13][d % 4] if u8 else [1, 3][d % 2]
     df = [0, 2, 0x10, 0x12][(d >> 2) % 4] if u8 else [0, 2][(d >> 2) % 2]
-    return ["P %d 0 1 x%s" % (df, h), "P %d 0 1 x%s" % (sf, h), "P %d 0 2 x%s" % ([0, 2][(d >> 4) % 2], h)]
+    cmds = ["P %d 0 1 x%s" % (df, h), "P %d 0 1 x%s" % (sf, h), "P %d 0 2 x%s" % ([0, 2][(d >> 4) % 2], h)]
+    if (d >> 6) % 8 == 0 and len(text) < 4000:
+        # the same text twice through ONE parser, the first result being changed in place (every scalar, through the setters) before it is released:
+        # what the second call returns is again exactly the denoted value, built from nodes of its own
+        cmds.append("PM %d 0 %d x%s x%s" % (df, [6, 5][(d >> 9) % 2], h, h))
+    return cmds
 
 
 def batch_strings(items):
@@ -196,6 +201,11 @@ def shard_fn(shard, nshards, seed, tier, exe, ndocs):
                 raise core.Inconclusive("generator expectation and reference parser disagree on %r" % text[:200])
             nref += 1
         check_doc(sh, cid, text, value, lines[:3], cmdmap[cid], origin, beyond)
+        if len(cmdmap[cid]) > 3 and cmdmap[cid][3].startswith("PM "):
+            parts = lines[3][2:].split(" || ")
+            if len(parts) == 2:
+                check_doc(sh, cid, text, value, ["= " + x for x in parts], cmdmap[cid], origin, beyond, modes=[("reused-parser/first", 0), ("reused-parser/second-after-first-result-changed-in-place", 0)])
+                sh.count("texts_parsed_twice_by_one_parser_with_the_first_result_changed_in_place")
         if lines[-1].split()[1] != "live=0":
             sh.violation("C01/leak", "blocks still allocated after parse+put+free: " + lines[-1],
                          {"driver": "jcdrv", "variant": "asan", "script": cmdmap[cid]})
